@@ -2,7 +2,7 @@
    Only the property theorems; each is closed by a lemma of Proofs/RelayNeg.v and followed
    by Print Assumptions. *)
 From Coq Require Import List NArith ZArith Bool.
-From Trzsz Require Import Base.Bytes Gen.Consts Model.RelayNeg Proofs.RelayNeg.
+From Trzsz Require Import Base.Bytes Gen.Consts Model.Detector Model.RelayNeg Proofs.Detector Proofs.RelayNeg.
 Import ListNotations.
 Open Scope N_scope.
 
@@ -272,6 +272,47 @@ Print Assumptions C14_framing_pins.
 Theorem C14_reset_guard_pin : relayneg_reset_guard_is_cas = true.
 Proof. exact reset_guard_src_ok. Qed.
 Print Assumptions C14_reset_guard_pin.
+
+(* ---- the relay's own detector in stand-by ------------------------------------------------ *)
+
+(* A complete trigger after arbitrary other output in one read of a relay that stands by -
+   unframed, or in tmux control-mode framing provided the relay has a tunnel connector and the
+   trigger carries a port - is TAKEN, whatever the relay's tunnelConnected flag: the advertised
+   transfer (mode, version, id, port) starts, and the client is forwarded the re-tagged read
+   with "#R" behind the trigger and, when a tunnel is on offer, the relay's port in place of the
+   server's in the trigger's ":<id>:<port>" (premises as in C06_fires; any id table) *)
+Theorem C14_relay_trigger_taken : forall has_connector flag d relay_port buf pre m txt tail ver,
+  d_relay d = true -> d_tmux d = true ->
+  let out := rewrite_trigger buf in
+  (nlen buf <? Consts.det_min_len) = false ->
+  last_index_of marker buf <> None ->
+  out = pre ++ txt ++ tail ->
+  trigger_text m txt -> greedy_end m tail ->
+  last_index_of marker (txt ++ tail) = Some O ->
+  (find_tmux out = None \/ (has_connector = true /\ m_port m <> None)) ->
+  finished (skipn (N.to_nat Consts.det_finished_offset) (txt ++ tail)) = false ->
+  parse_version (m_ver m) = Some ver ->
+  (dedup_eligible false (id_value (m_id m)) = true -> map_find (d_map d) (id_value (m_id m)) = None) ->
+  let t := {| t_mode := m_mode m; t_version := ver; t_id := id_value (m_id m);
+              t_win := win_server (id_value (m_id m)); t_port := port_value (m_port m);
+              t_prefix := match find_tmux out with Some p => p | None => [] end |} in
+  rn_stand_by_read has_connector flag d relay_port buf =
+    (rn_port_rewrite has_connector relay_port t (add_relay_suffix out (length pre)), Some t,
+     set_map d (snd (is_repeated false (d_map d) (id_value (m_id m))))).
+Proof. exact relay_trigger_taken. Qed.
+Print Assumptions C14_relay_trigger_taken.
+
+(* the values the relay passes, read from relay.go on every run: newTrzszDetector(true, true),
+   tunnel argument = "a tunnel connector is configured" *)
+Theorem C14_relay_detector_pins :
+  d_relay rn_relay_detector = true /\ d_tmux rn_relay_detector = true /\
+  (forall has_connector flag, rn_detect_tunnel_arg has_connector flag = has_connector) /\
+  length relayneg_listen_guard_src = 60%nat /\ length relayneg_port_rewrite_src = 164%nat.
+Proof.
+  exact (conj (proj1 relay_detector_flags) (conj (proj2 relay_detector_flags) (conj detect_tunnel_arg_ok
+        (conj (f_equal (@length _) (proj1 listen_src_ok)) (f_equal (@length _) (proj2 listen_src_ok)))))).
+Qed.
+Print Assumptions C14_relay_detector_pins.
 
 (* ---- the defect: the end sign is looked for chunk by chunk ------------------------------ *)
 
